@@ -437,7 +437,8 @@ func accessPathN(v ssa.Value, depth int) string {
 	case *ssa.Field:
 		return accessPathN(x.X, depth+1) + "." + fieldName(x.X.Type(), x.Field)
 	case *ssa.FieldAddr:
-		return "&" + accessPathN(x.X, depth+1) + "." + fieldName(x.X.Type(), x.Field)
+		// a pointer and its pointee share one name: &local, &captured and a pointer parameter all name the struct
+		return "&" + strings.TrimPrefix(accessPathN(x.X, depth+1), "&") + "." + fieldName(x.X.Type(), x.Field)
 	case *ssa.UnOp:
 		if x.Op == token.MUL {
 			if a, ok := x.X.(*ssa.Alloc); ok {
@@ -457,12 +458,11 @@ func accessPathN(v ssa.Value, depth int) string {
 			return "*" + p
 		}
 	case *ssa.Alloc:
-		// a local variable and its address share one name (like a pointer parameter and its pointee)
 		st := localStores(x)
 		if len(st) == 1 {
-			return accessPathN(st[0], depth+1)
+			return "&" + accessPathN(st[0], depth+1)
 		}
-		return "A:" + x.Name()
+		return "&A:" + x.Name()
 	case *ssa.Const:
 		if x.Value == nil {
 			return "nil"
